@@ -126,8 +126,9 @@ def pieces(seq):
 
 
 def make_strict(r, seq):
-    """rewrite a chained pattern so that no listed chain finding covers it: non-tail pieces get a fixed length, non-head
-    pieces lose their alternations (the strict oracle then applies to the chain logic itself)"""
+    """rewrite a chained pattern so that no listed chain finding covers it: non-tail pieces get a fixed length (the
+    strict oracle then applies to the chain logic itself; alternations and variable prefixes in non-head pieces stay:
+    their out-of-order candidates are what fix 81c4ffe is about)"""
     ps, _ = pieces(seq)
     if len(ps) < 2:
         return seq
@@ -149,17 +150,9 @@ def make_strict(r, seq):
                 out.append(it)
         return out
 
-    def no_alt(items):
-        out = []
-        for it in items:
-            if it[0] == "alt":
-                out += no_alt(fix_len(it[1][0]))
-            else:
-                out.append(it)
-        return out
     # walk the top-level sequence piece by piece (chaining jumps stay as they are)
     out, cur, idx = [], [], 0
-    flush = lambda cur, idx, last: (no_alt(fix_len(cur)) if (idx > 0 and not last) else fix_len(cur) if not last else no_alt(cur) if idx > 0 else cur)
+    flush = lambda cur, idx, last: cur if last else fix_len(cur)
     i = 0
     bounds = []
     for k, it in enumerate(seq):
@@ -464,7 +457,7 @@ def run(tier, replay=None):
         hist["alt"] += int(bool(meta.get("alt")))
         if np_ > 1 and meta.get("seq") is not None:
             pz, _ = pieces(meta["seq"])
-            strict = not any(variable_len(p) for p in pz[:-1]) and not any(variable_len(p) or has_alt(p) for p in pz[1:])
+            strict = not any(variable_len(p) for p in pz[:-1])
             hist["chained_strict"] = hist.get("chained_strict", 0) + int(strict)
         hist["with_matches"] += int(bool(ms))
         hist["spec_offsets"] += len(spec.get("a", {}))
